@@ -2,14 +2,14 @@
 # tools/sensitivity.sh [patch.diff ...]
 # For each patch: apply to /repo, confirm the repo's own suite still passes (132, with and
 # without --features serde), run both quick checks, record which fired, undo the patch.
-# Default: every patch under /verif/sensitivity/{detect,quiet,quiet-agents,quiet-review,quiet-review2,quiet-review3,detect-review2,arguable} and
+# Default: every patch under /verif/sensitivity/{detect,quiet,quiet-agents,quiet-review,quiet-review2,quiet-review3,quiet-review4,detect-review2,detect-review4,arguable} and
 # /verif/seeded/*/patch.diff.
 # Writes $VERIF/sensitivity/RESULTS.tsv.  Never leaves /repo modified.
 VERIF="$(cd "$(dirname "$0")/.." && pwd)"
 cd "$VERIF" || exit 2
 [ -z "$(git -C /repo status --porcelain --untracked-files=no)" ] || { echo "refusing: /repo has uncommitted changes"; exit 2; }
-if [ $# -eq 0 ]; then set -- sensitivity/detect/*.diff sensitivity/quiet/*.diff sensitivity/quiet-agents/*.diff sensitivity/quiet-review/*.diff sensitivity/quiet-review2/*.diff sensitivity/quiet-review3/*.diff sensitivity/detect-review2/*.diff sensitivity/arguable/*.diff seeded/*/patch.diff; fi
-out=$VERIF/sensitivity/RESULTS.tsv
+if [ $# -eq 0 ]; then set -- sensitivity/detect/*.diff sensitivity/quiet/*.diff sensitivity/quiet-agents/*.diff sensitivity/quiet-review/*.diff sensitivity/quiet-review2/*.diff sensitivity/quiet-review3/*.diff sensitivity/quiet-review4/*.diff sensitivity/detect-review2/*.diff sensitivity/detect-review4/*.diff sensitivity/arguable/*.diff seeded/*/patch.diff; fi
+out=${RESULTS:-$VERIF/sensitivity/RESULTS.tsv}
 printf 'patch\tsuite\tsuite_serde\tC12\tC12_classes\tC13\tC13_classes\n' > "$out"
 tmp=$(mktemp -d)
 for p in "$@"; do
@@ -17,7 +17,13 @@ for p in "$@"; do
   if ! git -C /repo apply "$(realpath "$p")"; then echo "cannot apply $p"; continue; fi
   suite=$(cd /repo && cargo test --workspace --no-fail-fast --offline 2>&1 | grep -E '^test result' | head -1 | sed -E 's/.* ([0-9]+) passed; ([0-9]+) failed.*/\1p\/\2f/')
   suite_serde=$(cd /repo && cargo test --features serde --lib --no-fail-fast --offline 2>&1 | grep -E '^test result' | head -1 | sed -E 's/.* ([0-9]+) passed; ([0-9]+) failed.*/\1p\/\2f/')
+  # OWNING_ONLY=1: for a seeded change run only the check of the property it was written against
+  own=""
+  if [ "${OWNING_ONLY:-0}" = 1 ] && [ -f "$(dirname "$p")/meta.json" ]; then
+    own=$(python3 -c "import json,sys;print(json.load(open(sys.argv[1]))['property'])" "$(dirname "$p")/meta.json")
+  fi
   for id in C12 C13; do
+    if [ -n "$own" ] && [ "$own" != "$id" ]; then : > "$tmp/$id.out"; echo - > "$tmp/$id.rc"; continue; fi
     ./check $id --tier quick --evidence "$tmp/$id.json" --replay-dir "$tmp/replays" > "$tmp/$id.out" 2>&1
     echo $? > "$tmp/$id.rc"
   done
